@@ -546,6 +546,20 @@ func main() {
 		var declared map[string]bool
 		fx := map[string]any{"type_ids": fg.enc.typeOrder, "str_consts": fg.enc.strByName(), "intmode": map[bool]string{true: "bv64", false: "math"}[fg.enc.bv]}
 		idx.Extra[funcDisplayName(j.fn)] = fx
+		ri := g.replayInfoFor(j.fn, *repo)
+		if ri != nil {
+			fx["replay"] = ri
+			seenPost := map[string]bool{}
+			for _, o := range fg.obls {
+				if o.Kind == "post" && o.Clause != "" {
+					o.GoClause, o.GoHelpers, o.GoImports, o.GoWhyNot = g.goClause(j.fn, o.Clause)
+					if o.GoClause != "" && !seenPost[o.Clause] {
+						seenPost[o.Clause] = true
+						ri.Posts = append(ri.Posts, replayPost{Clause: o.Clause, Props: o.Props, GoClause: o.GoClause, GoHelpers: o.GoHelpers, GoImports: o.GoImports})
+					}
+				}
+			}
+		}
 		for _, o := range fg.obls {
 			if len(want) > 0 {
 				hit := false
